@@ -103,7 +103,14 @@ Definition all_visited (cs : list call) : bool :=
 
 Definition reader_step (g : cfg) (s : sess) (spawn_ok : bool) : option (sess * effect) :=
   match rd s with
-  | RNone | R2 | RDone => None
+  | RNone =>
+      (* the accepting goroutine (ServeConn / Dial / serveListener) carries on after the index
+         insert - where it may have been parked in the displaced session's Close - and starts
+         the read loop; pre-fix order: it stores status ok only now, unconditionally *)
+      if estab s then
+        if fix_acc g then Some (set_rd s R0, FxNone) else Some (set_rd (set_st s Ok) R0, FxNone)
+      else None
+  | R2 | RDone => None
   | R0 => if goon (st s) then Some (set_rd s R2, FxNone) else Some (set_rd s D0, FxNone)
   | RLook i d => (* callCmdMap.Load(seq) *)
       match nth_error (calls s) i with
